@@ -25,46 +25,73 @@ def R1_decision_table(ctx):
     ctx.check(pop[2] == (("arg", 1),), "pop-receiver", "pop() is not applied to the frontier queue argument", b.where())
     tgt = ("arg", 3)
     popped_v = ("field", pop, "0")  # deep_strip reports the Some payload of x as x
-    seen = set()
-    for r in rows:
-        qs = r.sel.get(pop)
-        ts = r.sel.get(tgt)
-        if isinstance(ts, tuple):
-            ts = "None" if ts[1] == ("None",) else ("Some" if ts[1] == ("Some",) else ts)
-        if isinstance(qs, tuple):
-            qs = qs[1][0] if len(qs[1]) == 1 else qs
-        if qs == "None" and ts == "Some":
-            seen.add("empty-with-destination")
-            pay = agg_payload(r.ret) if result_variant(r.ret) == "Err" else None
-            ok = pay is not None and pay[0] == "agg" and pay[2] == ERR_NOPATH and pay[3][0][1] == ("arg", 2) and pay[3][1][1] == tgt
-            ctx.check(ok, "empty-with-destination", "queue exhausted with a destination does not return Err(NoPathExistsBetweenVertices(source, target)): %s" % short(r.ret), b.where(), detail=short(r.ret))
-        elif qs == "None" and ts == "None":
-            seen.add("empty-no-destination")
-            ok = result_variant(r.ret) == "Ok" and result_variant(agg_payload(r.ret)) == "None"
-            ctx.check(ok, "empty-no-destination", "queue exhausted without a destination does not return Ok(None): %s" % short(r.ret), b.where(), detail=short(r.ret))
-        elif qs == "Some":
-            eqs = [(bt, cond_truth(lab)) for bt, lab in r.bools if as_cmp(bt) and as_cmp(bt)[0] == "Eq"]
-            is_dst = None
-            for bt, truth in eqs:
-                c = as_cmp(bt)
-                ops = {c[1], c[2]}
-                if popped_v in ops and tgt in ops:
-                    is_dst = truth
-            if ts == "Some" and is_dst is True:
-                seen.add("destination-popped")
-                ok = result_variant(r.ret) == "Ok" and result_variant(agg_payload(r.ret)) == "None"
-                ctx.check(ok, "destination-popped", "popping the destination does not end the search with Ok(None): %s" % short(r.ret), b.where(), detail=short(r.ret))
-            elif (ts == "Some" and is_dst is False) or ts == "None":
-                seen.add("continue")
-                ok = result_variant(r.ret) == "Ok" and result_variant(agg_payload(r.ret)) == "Some" and agg_payload(agg_payload(r.ret)) == popped_v
-                ctx.check(ok, "continue:%s" % ts, "a popped non-destination vertex is not returned as Ok(Some(vertex)): %s" % short(r.ret), b.where(), detail=short(r.ret))
-            else:
-                ctx.bad("undecided-row", "path (queue=Some, target=%s) lacks the comparison popped == target: %s" % (ts, short(r.ret)), b.where())
+    # The table is read case by case: a path belongs to an abstract case (queue empty or not; no destination, destination just
+    # popped, another destination) when none of its conditions contradicts it — whether the code asks `match (pop, target)`,
+    # nested matches, `popped == t` under `Some(t)`, or `target == Some(popped)`.
+    def cond_under(term, label, case, is_sel=False):
+        """truth of one path condition under the case: True (holds), False (contradicted), None (says nothing)"""
+        q, t = case
+        d = nosite(deep_strip(term))
+        if d[0] == "discr" or is_sel:
+            d = d[1] if d[0] == "discr" else d
+            # Some/None of `x.map(f)` is Some/None of x
+            while d[0] == "call" and re.search(r"Option::<T>::(map|copied|cloned|as_ref)$", d[1]) and d[2]:
+                d = d[2][0]
         else:
-            ctx.bad("table-shape", "unexpected selectors queue=%s target=%s" % (qs, ts), b.where())
-    for need in ("empty-with-destination", "empty-no-destination", "destination-popped", "continue"):
-        if need not in seen:
-            ctx.bad("missing:" + need, "decision table lacks the case %s" % need, b.where())
+            d = norm_adaptors(ctx.F, d)
+        names = None
+        if isinstance(label, tuple) and label and label[0] == "otherwise":
+            names = set(label[1])
+        elif isinstance(label, str):
+            names = {label}
+        if d == pop and names is not None and names <= {"None", "Some"}:
+            return q in names
+        if d == tgt and names is not None and names <= {"None", "Some"}:
+            return ("None" if t == "none" else "Some") in names
+        c = as_cmp(d)
+        if c and c[0] in ("Eq", "Ne") and {c[1], c[2]} == {popped_v, tgt}:
+            if q != "Some" or t == "none":
+                return False
+            holds = (t == "eq") == (c[0] == "Eq")
+            return holds == cond_truth(label)
+        if d[0] == "call" and re.search(r"Option<.*> as std::cmp::PartialEq(<.*>)?>::(eq|ne)$", d[1]) and len(d[2]) == 2:
+            some_popped = ("agg", "std::option::Option", "Some", (("0", popped_v),))
+            if set(d[2]) == {tgt, some_popped}:
+                if q != "Some":
+                    return False
+                holds = (t == "eq") == d[1].endswith("::eq")
+                return holds == cond_truth(label)
+        return None
+
+    def feasible(r, case):
+        for k, v in r.sel.items():
+            if cond_under(k, v, case, True) is False:
+                return False
+        for bt, lab in r.bools:
+            if cond_under(bt, lab, case) is False:
+                return False
+        return True
+
+    OK_NONE = lambda v: result_variant(v) == "Ok" and result_variant(agg_payload(v)) == "None"
+    cases = [
+        (("None", "eq"), "empty-with-destination", lambda v: result_variant(v) == "Err" and agg_payload(v)[0] == "agg" and agg_payload(v)[2] == ERR_NOPATH and agg_payload(v)[3][0][1] == ("arg", 2) and agg_payload(v)[3][1][1] == tgt, "queue exhausted with a destination does not return Err(NoPathExistsBetweenVertices(source, target))"),
+        (("None", "none"), "empty-no-destination", OK_NONE, "queue exhausted without a destination does not return Ok(None)"),
+        (("Some", "eq"), "destination-popped", OK_NONE, "popping the destination does not end the search with Ok(None)"),
+        (("Some", "ne"), "continue:Some", lambda v: result_variant(v) == "Ok" and result_variant(agg_payload(v)) == "Some" and agg_payload(agg_payload(v)) == popped_v, "a popped non-destination vertex is not returned as Ok(Some(vertex))"),
+        (("Some", "none"), "continue:None", lambda v: result_variant(v) == "Ok" and result_variant(agg_payload(v)) == "Some" and agg_payload(agg_payload(v)) == popped_v, "a popped vertex is not returned as Ok(Some(vertex)) when there is no destination"),
+    ]
+    NR = lambda v: norm_adaptors(ctx.F, nosite(v)) if v is not None else v
+    for case, inst, want_, msg in cases:
+        want = lambda v, want_=want_: want_(NR(v))
+        rs = [r for r in rows if feasible(r, case)]
+        if not rs:
+            ctx.bad("missing:" + inst.split(":")[0], "decision table lacks the case %s" % inst, b.where())
+            continue
+        bad = [r for r in rs if not want(r.ret)]
+        ctx.check(not bad, inst, "%s: %s" % (msg, short(bad[0].ret)[:120] if bad else ""), b.where(), detail=short(rs[0].ret)[:100])
+    # with the queue empty and a destination the comparison cannot be what decides: the case must not depend on eq/ne
+    rs = [r for r in rows if feasible(r, ("None", "ne"))]
+    ctx.check(bool(rs) and all(result_variant(r.ret) == "Err" for r in rs), "empty-with-destination:any", "queue exhausted with a destination is not an error on every path", b.where())
 
 
 def R2_loop_exits(ctx):
